@@ -81,6 +81,10 @@ def make_case(index, rng, tier):
     boot_fail = None
     if rng.randrange(12) == 0:
         boot_fail = {"age": rng.randrange(1, 8), "code": rng.choice([3, 4])}
+        if rng.randrange(2) == 0:
+            # the application cannot be loaded at all: EVERY worker fails, after an import that takes a moment, one after the other -
+            # also while the master is already shutting down because of the first
+            boot_fail.update({"age": 1, "all": True, "delay": round(rng.uniform(0.1, 0.8), 2), "stagger": rng.choice([0.0, 0.15, 0.4])})
     bug = {"pyticks": rng.randrange(3) == 0, "fork_child_first": rng.randrange(2) == 0, "spurious_select": rng.randrange(3) == 0, "random_spawn_delay": rng.randrange(2) == 0,
            "pid_wrap": rng.choice([0, 0, 0, 12, 16, 24])}
     return {"cfg": cfg, "events": sorted(events, key=lambda e: e["t"]), "ticks": ticks, "scripts": scripts,
@@ -105,6 +109,9 @@ def run(case, choices):
     bf = case["boot_fail"]
     if bf:
         scripts[bf["age"]] = {"boot": "exit%d" % bf["code"]}
+        if bf.get("all"):
+            for a_ in range(1, 16):
+                scripts[a_] = {"boot": "exit%d" % bf["code"], "boot_delay": round(bf["delay"] + bf["stagger"] * (a_ - 1), 2)}
     w = master.World(sim, cfg, scripts=scripts)
     for i in range(case["preempt"]):
         sim.preempt_at.add(1 + choices.choose(3000, "preempt"))
